@@ -198,6 +198,12 @@ static Reg r_gconvm("gconv_m", [](const Args& a) {
     if (!m.ok) { if (!iserr) bad("tool-values", "GeoConvert prints a result for a line the conversion classes reject" + ctx); continue; }
     gct::Pt al = gct::in_zone(m, zone);
     std::string cls = (m.lat == 0 && !m.northp && al.ok && al.zone != m.zone) ? " [class:equator-south-label]" : "";
+    if (al.ok && (std::isnan(al.x) || std::isnan(al.y)) && std::isfinite(m.lat) && std::isfinite(m.lon)) {
+      // the conversion classes return NaN coordinates for a finite position: never a result to print
+      if (!iserr) bad("tool-values", "GeoConvert prints a NaN / INVALID result for a finite position" + ctx +
+                      (std::fabs(m.lat) < 1e-50 && al.zone > 0 && Math::AngDiff(doc::central_meridian(al.zone), m.lon) == -90 ? " [class:singular-point-west]" : ""));
+      continue;
+    }
     if (!al.ok) { if (!iserr) bad("tool-values", "GeoConvert prints a result where the requested zone is out of reach" + ctx); }
     else {
       bool inside = doc::strictly_inside(doc::range(al.zone > 0, m.northp, true), al.x, al.y);
